@@ -24,7 +24,7 @@ ALIAS = ['same', 'fullview', 'transposed', 'reversed', 'overlap', 'left-is-view'
 BIN = {'add': operator.add, 'sub': operator.sub, 'mul': operator.mul, 'div': operator.truediv, 'pow': operator.pow,
        'dot': algopy.dot, 'outer': algopy.outer, 'minimum': algopy.minimum, 'maximum': algopy.maximum}
 IOP = {'iadd': operator.iadd, 'isub': operator.isub, 'imul': operator.imul, 'idiv': operator.itruediv}
-REQUIRED = ['immutability:op', 'immutability:pb', 'immutability:tracer', 'alias:floordiv', 'alias:iouter', 'retained-inputs', 'subclass-operands'] + ['alias:' + k for k in BIN] + ['alias:' + k for k in IOP]
+REQUIRED = ['immutability:op', 'immutability:pb', 'immutability:tracer', 'alias:floordiv', 'alias:iouter', 'retained-inputs', 'subclass-operands', 'temporary-operands'] + ['alias:' + k for k in BIN] + ['alias:' + k for k in IOP]
 
 _mon = None
 
@@ -48,6 +48,8 @@ def cases(tier, seed):
         out.insert(0, pool.ambient_case(PID))
     if tier == 'thorough':
         out.insert(0, pool.ambient_docs_case(PID))
+    for k in range(2 if tier == 'quick' else 24):
+        out.append({'kind': 'bare', 'seed': case_seed('C14', seed, 'bare', k), 'params': {}})
     DP = [(1, 1), (2, 2), (3, 1), (4, 3)] if tier == 'quick' else [(1, 1), (2, 1), (2, 2), (3, 3), (4, 1), (5, 2)]
     for (D, P) in DP:
         for shape in [(3,), (2, 2), (3, 3), ()]:
@@ -155,6 +157,30 @@ def _retained(ctx, p, rng):
     ctx.ok('retained-inputs', ('retained', q.name, D, P))
 
 
+def _bare(ctx, case):
+    """functions and operators on unnamed temporaries that share memory with kept objects, evaluated in a fresh interpreter
+    without the probe layer (whose wrappers hold references to the operands and so hide anything that depends on reference
+    counts or object identity); see adsan/bare_temporaries.py"""
+    import subprocess, sys, os, json
+    from .. import boot
+    script = os.path.join(os.path.dirname(os.path.dirname(os.path.abspath(__file__))), 'bare_temporaries.py')
+    try:
+        r = subprocess.run([sys.executable, script, str(case['seed'] % (2 ** 31))], stdout=subprocess.PIPE, stderr=subprocess.PIPE, text=True, timeout=300,
+                           env=dict(os.environ, ALGOPY_REPO=boot.repo_path(), PYTHONDONTWRITEBYTECODE='1'))
+        rep = json.loads(r.stdout.strip().splitlines()[-1])
+    except Exception as e:
+        ctx.monitor_error('bare-temporaries', e); return
+    if os.path.realpath(rep.get('sut', '')) != os.path.join(boot.repo_path(), 'algopy'):
+        ctx.monitor_error('bare-temporaries', RuntimeError('subprocess imported %s' % rep.get('sut'))); return
+    for v in rep['violations']:
+        ctx.violation('temporary-operand:%s:%s' % (v['function'], 'kept-object-changed' if v['kept_object_changed'] else 'result-not-repeatable'), v)
+    ctx.evaluations += max(0, rep['checked'] - 1)
+    if rep['checked'] > 500:
+        ctx.ok('temporary-operands', ('bare', case['seed'] % 7), sample={'expressions_checked': rep['checked'], 'forms': rep['expressions'], 'unsupported': rep['unsupported']})
+    else:
+        ctx.skip('bare-temporaries:too-few-expressions-evaluated')
+
+
 class _UserUTPM(UTPM):
     """what a user's own subclass looks like"""
 
@@ -210,6 +236,8 @@ def run_case(ctx, case):
         return _retained(ctx, case['params'], gen.rng_of(case))
     if case['kind'] == 'subclass':
         return _subclass(ctx, case['params'], gen.rng_of(case))
+    if case['kind'] == 'bare':
+        return _bare(ctx, case)
     p = case['params']
     rng = gen.rng_of(case)
     D, P, shape, op = p['D'], p['P'], tuple(p['shape']), p['op']
